@@ -1316,7 +1316,23 @@ func bodyC04(s *Sim) {
 					break
 				}
 			}
-			if len(e.Status.Canary.Nodes) >= 2 && r.IntN(3) != 0 {
+			if len(e.Status.Canary.Nodes) >= 1 && r.IntN(3) == 0 {
+				// the pod of a canary node is replaced by a fresh, not yet labelled one while the replica set
+				// already reports all its pods ready; the first attempt to label it is rejected
+				last := e.Status.Canary.Nodes[len(e.Status.Canary.Nodes)-1]
+				if ln := s.Store.GetNode(last); ln != nil {
+					for _, p := range s.Store.Pods() {
+						if podNode(p) == last && isDaemonPod(p, def.NS, def.Name) {
+							s.Store.Remove(objKey{KPod, p.Namespace, p.Name})
+						}
+					}
+					s.injectPod(cr, ln, PodState{Kind: "ready", AgeSec: 20, Suffix: "-fresh"})
+					s.Advance(s.maxFrequency() + time.Second)
+					if _, fired := s.RunTaskWithFault(CtrlERS, types.NamespacedName{Namespace: cr.Namespace, Name: cr.Name}, "reject", func(c *Call) bool { return c.Verb == "patch" && c.Kind == KPod }); fired {
+						s.Stats.NonVacuous["C04.first-label-patch-rejected"]++
+					}
+				}
+			} else if len(e.Status.Canary.Nodes) >= 2 && r.IntN(3) != 0 {
 				// the canary node listed first leaves the cluster; the pod on the one listed last is replaced
 				// by a fresh one that has not been labelled yet
 				first, last := e.Status.Canary.Nodes[0], e.Status.Canary.Nodes[len(e.Status.Canary.Nodes)-1]
